@@ -24,6 +24,9 @@ type resultReceiver interface {
 	close()
 	reset()
 	needMore() bool
+	// delivered reports whether results have already left the receiver for good,
+	// so that discarding them with reset and scanning again would deliver them twice
+	delivered() bool
 
 	// MapReduce
 	fork() resultReceiver
@@ -34,6 +37,10 @@ type emptyResultReceiver struct{}
 
 func (e *emptyResultReceiver) needMore() bool {
 	return true
+}
+
+func (e *emptyResultReceiver) delivered() bool {
+	return false
 }
 
 func (e *emptyResultReceiver) append(key, value []byte, revision uint64) {
@@ -107,6 +114,8 @@ type streamResultReceiver struct {
 	readRev uint64
 	stream  chan *proto.StreamRangeResponse
 	batch   []*proto.KeyValue
+	// sent is true once a batch has been pushed into the stream
+	sent bool
 }
 
 func newStreamReceiver(readRev uint64, stream chan *proto.StreamRangeResponse) *streamResultReceiver {
@@ -134,7 +143,12 @@ func (e *streamResultReceiver) append(key, value []byte, revision uint64) {
 			},
 		}
 		e.stream <- resp
+		e.sent = true
 	}
+}
+
+func (e *streamResultReceiver) delivered() bool {
+	return e.sent
 }
 
 func (e *streamResultReceiver) flush() {
@@ -147,6 +161,7 @@ func (e *streamResultReceiver) flush() {
 			},
 		}
 		e.stream <- resp
+		e.sent = true
 		e.reset()
 	}
 }
